@@ -10,23 +10,61 @@ _T2 = "quimb/tensor/tn2d/core.py"
 
 
 
+# obligations that fail on the UNCHANGED tree (open defects, reported): not counted as "caught"
+BASELINE_FAILING = {"MovingEnvironment.init_segment": ("no-raise-UnboundLocalError",),
+                    "DMRG._set_cutoff_seq": ("no-raise-TypeError",),
+                    "DMRG.solve": ("returned-variable-is-bound",)}
+
+
 def run_mutant(tmp, relpath, suffix, old, new):
-    """the contracts of this family call proved contracts of OTHER source files (C08: tn1d/core.py): the scratch tree gets
-    unmodified copies of those files next to the single mutated one"""
+    """(1) the contracts of this family call proved contracts of OTHER source files (C08: tn1d/core.py): the scratch tree
+    gets unmodified copies of those files next to the single mutated one; (2) obligations are decided one by one with a
+    short timeout and the run stops at the first NEW failed obligation (a broken quantified invariant leaves many
+    obligations undecided, each of which would otherwise go through the whole solver portfolio); obligations that fail on
+    the unchanged tree already (open defects) are ignored"""
     import os
     import shutil
 
-    from vf import selftest
+    from vf import pyvc
 
-    extra = [f for f in (_DM, _T1, _T2) if f != relpath]
-    for f in extra:
+    src = open(os.path.join("/repo", relpath)).read()
+    if src.count(old) < 1:
+        return "stale", "old text not found in the current source"
+    files = [f for f in (_DM, _T1, _T2)]
+    for f in files:
         dst = os.path.join(tmp, f)
         os.makedirs(os.path.dirname(dst), exist_ok=True)
         shutil.copyfile(os.path.join("/repo", f), dst)
+    open(os.path.join(tmp, relpath), "w").write(src.replace(old, new, 1))
+    pyvc.REPO = tmp
+    pyvc._SRC_CACHE.clear()
     try:
-        return selftest.run_e1_mutant(tmp, relpath, suffix, old, new)
+        cons = [v for k, v in pyvc.REGISTRY.items() if k.endswith(suffix)]
+        if not cons:
+            return "stale", f"no contract registered for {suffix}"
+        rep = pyvc.verify(cons[0], discharge_now=False)
+        if rep.status != "ok":
+            return rep.status, rep.detail[:120]
+        ignore = BASELINE_FAILING.get(suffix, ())
+        undecided = []
+        for ob in rep.obligations:
+            pyvc.discharge(ob, timeout_ms=3000, portfolio=False)
+            if ob.status == "failed" and not any(x in ob.label for x in ignore):
+                return "failed", ob.label.split("#")[0]
+            if ob.status == "unknown":
+                undecided.append(ob)
+        for ob in undecided[:40]:  # second chance with the full portfolio
+            pyvc.discharge(ob)
+            if ob.status == "failed":
+                return "failed", ob.label.split("#")[0]
+        left = [ob for ob in undecided if ob.status == "unknown"]
+        if left:
+            return "unknown", f"{len(left)} undecided"
+        return "discharged", ""
     finally:
-        for f in extra:
+        pyvc.REPO = "/repo"
+        pyvc._SRC_CACHE.clear()
+        for f in files:
             try:
                 os.remove(os.path.join(tmp, f))
             except OSError:
@@ -135,4 +173,59 @@ MUTANTS = [
     (_DM, "DMRG.sweep_left", "            canonize=canonize,\n            verbosity=verbosity,\n            **update_opts,\n        )\n\n    # ---", "            canonize=False,\n            verbosity=verbosity,\n            **update_opts,\n        )\n\n    # ---", "expect-fail"),
     (_DM, "DMRG.sweep_left", "            verbosity=verbosity,\n            **update_opts,\n        )\n\n    # ---", "            verbosity=verbosity,\n        )\n\n    # ---", "expect-fail"),
     (_DM, "DMRG.sweep_left", "    def sweep_left(self, canonize=True, verbosity=0, **update_opts):\n        return self.sweep(", "    def sweep_left(self, canonize=True, verbosity=0, **update_opts):\n        return None\n        return self.sweep(", "expect-fail"),
+    # ---- solve
+    (_DM, "DMRG.solve", 'canonize = not (direction + previous_direction in {"LR", "RL"})', 'canonize = not (direction + previous_direction in {"LL", "RR"})', "expect-fail"),
+    (_DM, "DMRG.solve", 'canonize = not (direction + previous_direction in {"LR", "RL"})', 'canonize = (direction + previous_direction in {"LR", "RL"})', "expect-fail"),
+    (_DM, "DMRG.solve", 'canonize = not (direction + previous_direction in {"LR", "RL"})', 'canonize = False', "expect-fail"),
+    (_DM, "DMRG.solve", 'canonize = not (direction + previous_direction in {"LR", "RL"})', 'canonize = True', "benign"),
+    (_DM, "DMRG.solve", "            previous_direction = direction\n", "            previous_direction = 'R'\n", "expect-fail"),
+    (_DM, "DMRG.solve", '"max_bond": max_bond,', '"max_bond": max_bond + 1,', "expect-fail"),
+    (_DM, "DMRG.solve", '"max_bond": max_bond,', '"max_bond": self._bond_dim0,', "expect-fail"),
+    (_DM, "DMRG.solve", '"cutoff": cutoff,', '"cutoff": 0.0,', "expect-fail"),
+    (_DM, "DMRG.solve", "                next(self._bond_dims),\n", "                next(self._bond_dims) and next(self._bond_dims),\n", "expect-fail"),
+    (_DM, "DMRG.solve", "                self._k.expand_bond_dimension(\n                    max_bond,", "                self._k.expand_bond_dimension(\n                    max_bond + 1,", "expect-fail"),
+    (_DM, "DMRG.solve", "                    energy = self.sweep(direction=direction, **sweep_opts)\n            else:", "                    energy = self.sweep(direction='R', **sweep_opts)\n            else:", "expect-fail"),
+    (_DM, "DMRG.solve", "            else:\n                energy = self.sweep(direction=direction, **sweep_opts)", "            else:\n                energy = self.sweep(direction=direction, canonize=canonize)", "expect-fail"),
+    (_DM, "DMRG.solve", "        if bond_dims is not None:\n            self._set_bond_dim_seq(bond_dims)", "        if bond_dims is not None:\n            self._set_cutoff_seq(bond_dims)", "expect-fail"),
+    (_DM, "DMRG.solve", "        if bond_dims is not None:\n            self._set_bond_dim_seq(bond_dims)", "        if bond_dims is None:\n            self._set_bond_dim_seq(bond_dims)", "expect-fail"),
+    (_DM, "DMRG.solve", "        return converged", "        return None", "expect-fail"),
+    # ---- C09: 1D compression sweeps (tn1d/core.py)
+    (_T1, "::set_default_compress_mode", 'opts.setdefault("cutoff_mode", "rel" if cyclic else "rsum2")', 'opts["cutoff_mode"] = "rel" if cyclic else "rsum2"', "expect-fail"),
+    (_T1, "::set_default_compress_mode", 'opts.setdefault("cutoff_mode", "rel" if cyclic else "rsum2")', 'opts.setdefault("cutoff_mode", "rsum2" if cyclic else "rel")', "expect-fail"),
+    (_T1, "::set_default_compress_mode", 'opts.setdefault("cutoff_mode", "rel" if cyclic else "rsum2")', 'opts.setdefault("cutoff", 0.0)', "expect-fail"),
+    (_T1, "::set_default_compress_mode", 'opts.setdefault("cutoff_mode", "rel" if cyclic else "rsum2")', 'opts.pop("max_bond", None)\n    opts.setdefault("cutoff_mode", "rel" if cyclic else "rsum2")', "expect-fail"),
+    (_T1, "TensorNetwork1DFlat.left_compress_site", '        compress_opts.setdefault("absorb", "right")\n        compress_opts.setdefault("reduced", "left")', '        compress_opts.setdefault("absorb", "left")\n        compress_opts.setdefault("reduced", "left")', "expect-fail"),
+    (_T1, "TensorNetwork1DFlat.left_compress_site", '        compress_opts.setdefault("absorb", "right")\n        compress_opts.setdefault("reduced", "left")', '        compress_opts.setdefault("absorb", "right")\n        compress_opts.setdefault("reduced", "right")', "expect-fail"),
+    (_T1, "TensorNetwork1DFlat.left_compress_site", '        tl, tr = self[i], self[i + 1]\n        tensor_compress_bond(tl, tr, create_bond=create_bond, **compress_opts)', '        tl, tr = self[i], self[i + 1]\n        tensor_compress_bond(tl, tr, create_bond=create_bond)', "expect-fail"),
+    (_T1, "TensorNetwork1DFlat.left_compress_site", '        tl, tr = self[i], self[i + 1]\n        tensor_compress_bond(tl, tr, create_bond=create_bond, **compress_opts)', '        tl, tr = self[i - 1], self[i]\n        tensor_compress_bond(tl, tr, create_bond=create_bond, **compress_opts)', "expect-fail"),
+    (_T1, "TensorNetwork1DFlat.left_compress_site", '        tl, tr = self[i], self[i + 1]\n        tensor_compress_bond(tl, tr, create_bond=create_bond, **compress_opts)', '        tl, tr = self[i], self[i + 1]\n        tensor_compress_bond(tr, tl, create_bond=create_bond, **compress_opts)', "expect-fail"),
+    (_T1, "TensorNetwork1DFlat.left_compress_site", '        compress_opts.setdefault("absorb", "right")\n        compress_opts.setdefault("reduced", "left")', '        compress_opts["max_bond"] = None\n        compress_opts.setdefault("absorb", "right")\n        compress_opts.setdefault("reduced", "left")', "expect-fail"),
+    (_T1, "TensorNetwork1DFlat.right_compress_site", '        compress_opts.setdefault("absorb", "left")\n        compress_opts.setdefault("reduced", "right")', '        compress_opts.setdefault("absorb", "right")\n        compress_opts.setdefault("reduced", "right")', "expect-fail"),
+    (_T1, "TensorNetwork1DFlat.right_compress_site", '        tl, tr = self[i - 1], self[i]\n        tensor_compress_bond(tl, tr, create_bond=create_bond, **compress_opts)', '        tl, tr = self[i - 1], self[i]\n        tensor_compress_bond(tl, tr, **compress_opts)', "expect-fail"),
+    (_T1, "TensorNetwork1DFlat.right_compress_site", '        tl, tr = self[i - 1], self[i]\n        tensor_compress_bond(tl, tr, create_bond=create_bond, **compress_opts)', '        tl, tr = self[i], self[i + 1]\n        tensor_compress_bond(tl, tr, create_bond=create_bond, **compress_opts)', "expect-fail"),
+    (_T1, "TensorNetwork1DFlat.right_compress_site", '        tl, tr = self[i - 1], self[i]\n        tensor_compress_bond(tl, tr, create_bond=create_bond, **compress_opts)', '        tl, tr = self[i - 1], self[i]\n        tensor_compress_bond(tl, tr, create_bond=create_bond, **{**compress_opts, "cutoff": 1e-10})', "expect-fail"),
+    (_T1, "TensorNetwork1DFlat.right_compress_site", '        compress_opts.setdefault("absorb", "left")\n        compress_opts.setdefault("reduced", "right")', '        compress_opts.setdefault("absorb", "left")\n        compress_opts.setdefault("reduced", "left")', "expect-fail"),
+    (_T1, "TensorNetwork1DFlat.left_compress", "        for i in range(start, stop):\n            self.left_compress_site(", "        for i in range(start, stop - 1):\n            self.left_compress_site(", "expect-fail"),
+    (_T1, "TensorNetwork1DFlat.left_compress", "        for i in range(start, stop):\n            self.left_compress_site(", "        for i in range(start + 1, stop):\n            self.left_compress_site(", "expect-fail"),
+    (_T1, "TensorNetwork1DFlat.left_compress", "        for i in range(start, stop):\n            self.left_compress_site(\n                i, bra=bra, create_bond=create_bond, **compress_opts", "        for i in range(start, stop):\n            self.left_compress_site(\n                i, bra=bra, create_bond=create_bond", "expect-fail"),
+    (_T1, "TensorNetwork1DFlat.left_compress", "        for i in range(start, stop):\n            self.left_compress_site(", "        for i in range(start, stop):\n            self.right_compress_site(", "expect-fail"),
+    (_T1, "TensorNetwork1DFlat.left_compress", "        if stop is None:\n            stop = self.L - 1\n\n        for i in range(start, stop):\n            self.left_compress_site(", "        if stop is None:\n            stop = self.L - 2\n\n        for i in range(start, stop):\n            self.left_compress_site(", "expect-fail"),
+    (_T1, "TensorNetwork1DFlat.left_compress", "        for i in range(start, stop):\n            self.left_compress_site(\n                i,", "        for i in range(start, stop):\n            self.left_compress_site(\n                start,", "expect-fail"),
+    (_T1, "TensorNetwork1DFlat.right_compress", "        for i in range(start, stop, -1):\n            self.right_compress_site(", "        for i in range(start, stop + 1, -1):\n            self.right_compress_site(", "expect-fail"),
+    (_T1, "TensorNetwork1DFlat.right_compress", "        for i in range(start, stop, -1):\n            self.right_compress_site(", "        for i in range(start - 1, stop, -1):\n            self.right_compress_site(", "expect-fail"),
+    (_T1, "TensorNetwork1DFlat.right_compress", "        for i in range(start, stop, -1):\n            self.right_compress_site(\n                i, bra=bra, create_bond=create_bond, **compress_opts", "        for i in range(start, stop, -1):\n            self.right_compress_site(\n                i, bra=bra, create_bond=create_bond, max_bond=None", "expect-fail"),
+    (_T1, "TensorNetwork1DFlat.right_compress", "        for i in range(start, stop, -1):\n            self.right_compress_site(", "        for i in range(start, stop, -1):\n            self.left_compress_site(", "expect-fail"),
+    (_T1, "TensorNetwork1DFlat.right_compress", "            start = self.L - (0 if self.cyclic else 1)\n        if stop is None:\n            stop = 0\n\n        for i in range(start, stop, -1):\n            self.right_compress_site(", "            start = self.L - (0 if self.cyclic else 1)\n        if stop is None:\n            stop = 1\n\n        for i in range(start, stop, -1):\n            self.right_compress_site(", "expect-fail"),
+    (_T1, "TensorNetwork1DFlat.compress", '            self.left_canonize(\n                bra=compress_opts.get("bra", None), create_bond=create_bond\n            )\n            self.right_compress(**compress_opts)', '            self.right_canonize(\n                bra=compress_opts.get("bra", None), create_bond=create_bond\n            )\n            self.right_compress(**compress_opts)', "benign"),
+    (_T1, "TensorNetwork1DFlat.compress", '            self.left_canonize(\n                bra=compress_opts.get("bra", None), create_bond=create_bond\n            )\n            self.right_compress(**compress_opts)', '            self.left_canonize(\n                bra=compress_opts.get("bra", None), create_bond=create_bond\n            )\n            self.left_compress(**compress_opts)', "expect-fail"),
+    (_T1, "TensorNetwork1DFlat.compress", '            self.left_canonize(\n                bra=compress_opts.get("bra", None), create_bond=create_bond\n            )\n            self.right_compress(**compress_opts)', '            self.left_canonize(\n                bra=compress_opts.get("bra", None), create_bond=create_bond\n            )\n            self.right_compress()', "expect-fail"),
+    (_T1, "TensorNetwork1DFlat.compress", '            self.left_canonize(\n                bra=compress_opts.get("bra", None), create_bond=create_bond\n            )\n            self.right_compress(**compress_opts)', '            self.left_canonize(\n                bra=compress_opts.get("bra", None), create_bond=create_bond\n            )\n            self.right_compress(stop=1, **compress_opts)', "expect-fail"),
+    (_T1, "TensorNetwork1DFlat.compress", "                self.right_compress(**compress_opts)\n                self.left_canonize(stop=form)", "                self.right_compress(**compress_opts)\n                self.left_canonize(stop=form + 1)", "expect-fail"),
+    (_T1, "TensorNetwork1DFlat.compress", "                self.left_compress(**compress_opts)\n                self.right_canonize(stop=form)", "                self.left_compress(**compress_opts)\n                self.right_canonize(stop=form - 1)", "expect-fail"),
+    (_T1, "TensorNetwork1DFlat.compress", "                self.left_compress(**compress_opts)\n                self.right_canonize(stop=form)", "                self.left_compress(**compress_opts)", "expect-fail"),
+    (_T1, "TensorNetwork1DFlat.compress", "            self.left_compress(\n                stop=self.L // 2, create_bond=create_bond, **compress_opts\n            )", "            self.left_compress(\n                stop=self.L // 2 - 1, create_bond=create_bond, **compress_opts\n            )", "expect-fail"),
+    (_T1, "TensorNetwork1DFlat.compress", "            self.right_compress(\n                stop=self.L // 2, create_bond=create_bond, **compress_opts\n            )", "            self.right_compress(\n                stop=self.L // 2 + 1, create_bond=create_bond, **compress_opts\n            )", "expect-fail"),
+    (_T1, "TensorNetwork1DFlat.compress", "            self.right_compress(\n                stop=self.L // 2, create_bond=create_bond, **compress_opts\n            )", "            self.right_compress(\n                stop=self.L // 2, create_bond=create_bond\n            )", "expect-fail"),
+    (_T1, "TensorNetwork1DFlat.compress", '        if form is None:\n            form = "right"', '        if form is None:\n            form = "left"', "expect-fail"),
+    (_T1, "TensorNetwork1DFlat.compress", '        elif form == "left":\n            self.right_canonize(', '        elif form == "right":\n            self.right_canonize(', "expect-fail"),
 ]
